@@ -24,34 +24,34 @@ import (
 
 // flowParams describes one scenario instance.
 type flowParams struct {
-	Engine   string   `json:"engine"`
-	Sources  int      `json:"sources"`
-	Records  int      `json:"records"`
-	Batch    int      `json:"batch"` // records per Read
-	Dests    int      `json:"dests"`
-	AckMenu  []string `json:"ack_menu"`
-	DLQMenu  []string `json:"dlq_menu"`
-	Window   int      `json:"dlq_window"`
-	Thresh   int      `json:"dlq_threshold"`
-	Stop     string   `json:"stop"` // "", "stopwait", "stop+wait", "force"
-	Bundle   int      `json:"persister_bundle"`
-	Faults   bool     `json:"store_faults"`
-	ReadMenu []string `json:"read_menu"`
-	Blocked  []string `json:"blocked"` // connectors whose ack gate is never granted (unresponsive plugin)
-	Restart  bool     `json:"restart"` // start the pipeline again after the stop completed
-	Retries  int      `json:"max_retries"`
-	Procs    []procParam `json:"procs"`
-	PointOnly    []string `json:"point_only"` // preemptive part: sweep only points of these files
-	LateOpen     []string `json:"late_open"` // destinations whose Open gate sorts last (stays pending by default)
-	GateDestOpen bool    `json:"gate_dest_open"` // destination Open calls are pending events with answers {ok, err}
-	NoMatch      []int   `json:"no_match"`       // records that do not match the processors' condition (Cond: "match")
-	GateDLQOpen  bool    `json:"gate_dlq_open"`  // the DLQ connector's Open is a pending event (an unresponsive DLQ during start-up)
-	Reject       map[string][]string `json:"reject"` // destination -> records/pieces it rejects (forced answers, C08)
-	Apply        []string `json:"apply"` // live applies: "<kind>[+stale][+noauth]", kind in proc, twoprocs, conn, addproc; "||" prefix = concurrent with the previous one
-	Reconf       []string `json:"reconf"` // live reconfigure requests for processor "pp": "A", "B" (concurrent), "cancelA"
-	ProcOpenMenu []string `json:"proc_open_menu"`
-	Ctl          []string `json:"ctl"` // explicit control history (after "start"): stop, wait, stopwait, force, stopall, start; one at a time
-	SrcPositions string  `json:"src_positions"` // "" normal, "dup": record 1 repeats the position of record 0, "empty": record 1 has an empty position
+	Engine       string              `json:"engine"`
+	Sources      int                 `json:"sources"`
+	Records      int                 `json:"records"`
+	Batch        int                 `json:"batch"` // records per Read
+	Dests        int                 `json:"dests"`
+	AckMenu      []string            `json:"ack_menu"`
+	DLQMenu      []string            `json:"dlq_menu"`
+	Window       int                 `json:"dlq_window"`
+	Thresh       int                 `json:"dlq_threshold"`
+	Stop         string              `json:"stop"` // "", "stopwait", "stop+wait", "force"
+	Bundle       int                 `json:"persister_bundle"`
+	Faults       bool                `json:"store_faults"`
+	ReadMenu     []string            `json:"read_menu"`
+	Blocked      []string            `json:"blocked"` // connectors whose ack gate is never granted (unresponsive plugin)
+	Restart      bool                `json:"restart"` // start the pipeline again after the stop completed
+	Retries      int                 `json:"max_retries"`
+	Procs        []procParam         `json:"procs"`
+	PointOnly    []string            `json:"point_only"`     // preemptive part: sweep only points of these files
+	LateOpen     []string            `json:"late_open"`      // destinations whose Open gate sorts last (stays pending by default)
+	GateDestOpen bool                `json:"gate_dest_open"` // destination Open calls are pending events with answers {ok, err}
+	NoMatch      []int               `json:"no_match"`       // records that do not match the processors' condition (Cond: "match")
+	GateDLQOpen  bool                `json:"gate_dlq_open"`  // the DLQ connector's Open is a pending event (an unresponsive DLQ during start-up)
+	Reject       map[string][]string `json:"reject"`         // destination -> records/pieces it rejects (forced answers, C08)
+	Apply        []string            `json:"apply"`          // live applies: "<kind>[+stale][+noauth]", kind in proc, twoprocs, conn, addproc; "||" prefix = concurrent with the previous one
+	Reconf       []string            `json:"reconf"`         // live reconfigure requests for processor "pp": "A", "B" (concurrent), "cancelA"
+	ProcOpenMenu []string            `json:"proc_open_menu"`
+	Ctl          []string            `json:"ctl"`           // explicit control history (after "start"): stop, wait, stopwait, force, stopall, start; one at a time
+	SrcPositions string              `json:"src_positions"` // "" normal, "dup": record 1 repeats the position of record 0, "empty": record 1 has an empty position
 }
 
 // procParam describes one scripted processor of the scenario.
@@ -611,7 +611,6 @@ func filterFor(prop string, vs []verifkit.Violation) []verifkit.Violation {
 	return out
 }
 
-
 // TestVerifFlowPreempt is the preemptive tier: engine files named in the check's part are instrumented with a scheduling
 // point before every statement; besides the environment schedule, ONE goroutine is preempted at every point occurrence of
 // the default execution (it resumes only when nothing else can run, or earlier as a further deviation).
@@ -638,6 +637,9 @@ func TestVerifFlowPreempt(t *testing.T) {
 		scn.Check = func(x *verifkit.Exec) []verifkit.Violation { return filterFor(prop, inner(x)) }
 		pb := sc.bound()
 		e := &verifkit.Explorer{T: t, Rep: rep, Scn: scn, MaxBound: 0, PreemptBound: &pb, MaxPointOccurrence: 2, Deadline: deadline}
+		if verifkit.Thorough() {
+			e.CandidateBound = 1
+		}
 		if only := sc.p.PointOnly; len(only) > 0 {
 			e.PointFilter = func(occ string) bool {
 				for _, f := range only {
